@@ -21,6 +21,12 @@ class Unsupported(Exception):
     """The engine cannot execute this construct symbolically (never mapped to a violation)."""
 
 
+class Unbound(Unsupported):
+    """a loop contract (invariant / havoc / element hook / iterable recognition) cannot be bound to the CURRENT source text of the function
+    (renamed loop-carried local, rewritten loop header): the contract, not the code, is out of date.  Undecided, never a violation."""
+
+
+
 class PathInfeasible(BaseException):
     pass
 
@@ -1211,6 +1217,8 @@ def explore(harness, args=(), max_paths=2000, deadline_s=120, unexpected='no-une
                     r.checks = []
             except PathLimit as e:
                 res.errors.append('PathLimit: %s' % e)
+            except Unbound as e:
+                res.errors.append('Unbound: %s' % e)
             except Unsupported as e:
                 res.errors.append('Unsupported: %s' % e)
             except RecursionError as e:
